@@ -16,8 +16,20 @@ fn clock(v: &[u32]) -> VectorClock {
 fn gen_vec(rng: &mut Rng) -> Vec<u32> {
     let len = rng.below(6);
     let big = rng.pct(15);
+    // counters from the whole u32 range, clustered around the values where a signed or truncated comparison
+    // would go wrong (a clock component is an unsigned 32-bit counter; the order is defined on all of them)
+    let huge = !big && rng.pct(15);
+    const EDGES: [u32; 9] = [0, 1, 2, (1 << 31) - 1, 1 << 31, (1 << 31) + 1, 3_000_000_000, u32::MAX - 1, u32::MAX];
     let mut v: Vec<u32> = (0..len)
-        .map(|_| if big { (rng.next_u64() % 1_000_000) as u32 } else { rng.below(4) as u32 })
+        .map(|_| {
+            if huge {
+                if rng.pct(60) { EDGES[rng.below(EDGES.len())] } else { rng.next_u64() as u32 }
+            } else if big {
+                (rng.next_u64() % 1_000_000) as u32
+            } else {
+                rng.below(4) as u32
+            }
+        })
         .collect();
     if rng.pct(35) {
         for _ in 0..rng.range(1, 3) {
@@ -93,6 +105,9 @@ pub fn check_pair(case: &Case, a: &[u32], b: &[u32]) -> bool {
     let got = ca.partial_cmp(&cb);
     let expected = model_cmp(a, b);
     case.add("clock_pairs_compared", 1);
+    if (0..a.len().max(b.len())).any(|i| at(a, i).abs_diff(at(b, i)) >= 1 << 31) {
+        case.add("clock_pairs_with_a_component_gap_of_2^31_or_more", 1);
+    }
     if got != expected {
         case.violation("C20/clock/partial_cmp-disagrees-with-component-wise-order", json!({"pair": wit(), "got": format!("{:?}", got), "expected": format!("{:?}", expected)}));
         return false;
@@ -223,7 +238,7 @@ pub fn clock_case(case: &mut Case) {
     let b = if case.rng.pct(60) { gen_related(&mut case.rng, &a) } else { gen_vec(&mut case.rng) };
     let c = match case.rng.below(4) {
         0 => gen_related(&mut case.rng, &b),
-        1 => (0..a.len().max(b.len()) + 1).map(|i| at(&a, i).max(at(&b, i)) + case.rng.below(2) as u32).collect(),
+        1 => (0..a.len().max(b.len()) + 1).map(|i| at(&a, i).max(at(&b, i)).saturating_add(case.rng.below(2) as u32)).collect(),
         2 => gen_related(&mut case.rng, &a),
         _ => gen_vec(&mut case.rng),
     };
